@@ -4,7 +4,10 @@
 PATCH="$(realpath "$1")"; PROP="$2"; TIER="${3:-quick}"
 if [ -n "$(git -C /repo status --porcelain)" ]; then echo "REFUSING: /repo has uncommitted changes"; exit 3; fi
 if ! git -C /repo apply --check "$PATCH" 2>/dev/null; then echo "PATCH DOES NOT APPLY (3-way attempt)"; git -C /repo apply -3 "$PATCH" || { git -C /repo reset -q --hard HEAD; echo "(restored /repo)"; exit 4; }; else git -C /repo apply "$PATCH"; fi
+# evidence written while a seeded change is applied must not replace the evidence of the unchanged tree
+EV="/verif/evidence/$PROP.json"; [ -f "$EV" ] && cp "$EV" "/tmp/try_seeded.$$.ev"
 cd /verif && ./check "$PROP" "$TIER" > /tmp/try_seeded.$$.log 2>&1; rc=$?
+[ -f "/tmp/try_seeded.$$.ev" ] && mv "/tmp/try_seeded.$$.ev" "$EV"
 git -C /repo reset -q --hard HEAD; git -C /repo clean -fdq -- crates >/dev/null 2>&1
 grep -E "^VIOLATION|^KNOWN-FINDING|MACHINERY|done in" /tmp/try_seeded.$$.log | head -12
 grep -A2 "^VIOLATION" /tmp/try_seeded.$$.log | grep -E "kind=|detail" | head -6 | cut -c1-300
